@@ -239,13 +239,52 @@ func (a *Allocation) AddChannelBind(chanBind *ChannelBind, channelLifetime, perm
 				a.RelayAddr, chanBind.Peer, uint16(chanBind.Number))
 		}
 	} else {
-		channelByNumber.refresh(channelLifetime)
+		// Refresh under the lock the expiry takes (see expireChannelBind): a
+		// binding whose timer has removed it meanwhile is bound anew instead.
+		a.channelBindingsLock.Lock()
+		stillBound := false
+		for _, c := range a.channelBindings {
+			if c == channelByNumber {
+				stillBound = true
+				channelByNumber.refresh(channelLifetime)
+			}
+		}
+		a.channelBindingsLock.Unlock()
+		if !stillBound {
+			return a.AddChannelBind(chanBind, channelLifetime, permissionLifetime)
+		}
 
 		// Channel binds also refresh permissions.
 		a.AddPermission(NewPermission(channelByNumber.Peer, a.log, permissionLifetime))
 	}
 
 	return nil
+}
+
+// expireChannelBind is the binding timer's callback: it removes bind unless a
+// refresh has moved its deadline meanwhile (the timer has then been re-armed)
+// or the binding is no longer listed. Check and removal happen in one critical
+// section with the refresh in AddChannelBind.
+func (a *Allocation) expireChannelBind(bind *ChannelBind) {
+	a.channelBindingsLock.Lock()
+	defer a.channelBindingsLock.Unlock()
+
+	if time.Now().Before(bind.expiresAt) {
+		return
+	}
+	for i := len(a.channelBindings) - 1; i >= 0; i-- {
+		if a.channelBindings[i] != bind {
+			continue
+		}
+		if a.eventHandler.OnChannelDeleted != nil {
+			a.eventHandler.OnChannelDeleted(a.fiveTuple.SrcAddr, a.fiveTuple.DstAddr,
+				a.fiveTuple.Protocol.String(), a.userID, a.realm,
+				a.RelayAddr, bind.Peer, uint16(bind.Number))
+		}
+		a.channelBindings = append(a.channelBindings[:i], a.channelBindings[i+1:]...)
+
+		return
+	}
 }
 
 // RemoveChannelBind removes the ChannelBind from this allocation by id.
